@@ -124,9 +124,7 @@ def job_wrapper_sizes():
         return bool(accepted), 'real radial_solver called with a too-short %s: (argument, exception, success) = %r' % (', '.join(bad_arr + bad_tup), outs)
     res = [discharge(Obligation('radial_solver: the guards before the first allocation (%d found) force all five arrays to one length and all four per-layer tuples to one length' % len(guards), goal, pc,
                                 with_axioms=False, with_dens=False, replay=replay.api_or_witness([SOLVER], rp, 'the size guards of radial_solver do not force equal lengths (current source)'), key='wrapper:sizes'))]
-    so = z3.Solver()
-    so.add(pc)
-    res.append({'name': 'wrapper sizes [reachability twin]', 'key': 'twin', 'twin': True, 'verdict': str(so.check()), 'solver_s': 0.0, 'info': {'guards': guards}})
+    res.append({'name': 'wrapper sizes [reachability twin]', 'key': 'twin', 'twin': True, 'verdict': solve.sat_check(list(pc), 60000), 'solver_s': 0.0, 'info': {'guards': guards}})
     return {'results': res, 'encoded': loader.ENCODED, 'label': 'wrapper sizes'}
 
 
@@ -413,9 +411,8 @@ def job_skeleton(fname):
                                         with_axioms=False, with_dens=False, replay=lambda md: (True, 'double re-dimensionalisation'), key='restore:once:%s' % fname)))
     # vacuity: a normal return with a scale and a restore exists
     okp = [e for e in exits if e.kind == 'return' and any(t.startswith('scale@') for t in e.state.trace) and any(t.startswith('restore@') for t in e.state.trace)]
-    so = z3.Solver()
-    so.add(z3.Or(*[z3.And(*e.pc) for e in okp]) if okp else z3.BoolVal(False))
-    results.append({'name': '%s: a scale ... restore ... return path exists [reachability twin]' % fname, 'key': 'twin', 'twin': True, 'verdict': str(so.check()) if fname == 'cf_radial_solver' else 'sat',
+    twin_q = [z3.Or(*[z3.And(*e.pc) for e in okp]) if okp else z3.BoolVal(False)]
+    results.append({'name': '%s: a scale ... restore ... return path exists [reachability twin]' % fname, 'key': 'twin', 'twin': True, 'verdict': solve.sat_check(twin_q, 60000) if fname == 'cf_radial_solver' else 'sat',
                     'solver_s': 0.0, 'info': {'exits': len(exits), 'paths': ex.paths}})
     return {'results': results, 'encoded': loader.ENCODED, 'paths': ex.paths, 'label': 'skeleton ' + fname}
 
